@@ -30,7 +30,7 @@ static void dump_current(const char* why) {
   char buf[64];
   int n = snprintf(buf, sizeof buf, "\nCURRENT-INPUT %s idx=%ld hex=", why, input_index);
   if (write(2, buf, n) < 0) {}
-  for (size_t i = 0; i < cur_len && i < 4096; i++) {
+  for (size_t i = 0; i < cur_len && i < 600; i++) {
     static const char hx[] = "0123456789abcdef";
     char c[2] = {hx[cur_in[i] >> 4], hx[cur_in[i] & 15]};
     if (write(2, c, 2) < 0) {}
@@ -221,7 +221,10 @@ static void one_load_core(const unsigned char* in, size_t len) {
   last_refused = va.refused;
   ret_events = 0;
   alarm(10);
-  fprintf(tr, "{\"e\":\"load\",\"len\":%zu,\"L\":%d}\n", len, CBOR_MAX_STACK_SIZE);
+  /* short inputs are logged whole, so that the end-to-end judge does not depend on how far the decoder chose to read */
+  fprintf(tr, "{\"e\":\"load\",\"len\":%zu,\"L\":%d,\"in\":[", len, CBOR_MAX_STACK_SIZE);
+  if (len <= 1500) for (size_t i = 0; i < len; i++) fprintf(tr, i ? ",%u" : "%u", in[i]);
+  fputs("]}\n", tr);
   long req0 = va.requests;
   cbor_item_t* item = cbor_load(src, len, &res);
   last_load_requests = va.requests - req0;
@@ -349,6 +352,48 @@ static struct tclass classes[] = {
 #define NCLASS ((int)(sizeof classes / sizeof *classes))
 static unsigned long vcounter;
 
+/* structural tracker over token classes, used ONLY to decide which prefixes to extend (never to judge): a prefix is
+ * extended when the real decoder OR this tracker says more input is awaited, so that a decoder that wrongly gives up on a
+ * prefix is still asked about its extensions */
+struct rframe { int kind; long rem; }; /* kind: 0 definite (rem items left), 1 indef array, 2 indef map (rem = parity), 3 chunked bytes, 4 chunked text */
+static int ref_live(const int* toks, int n) {
+  struct rframe st[64];
+  int sp = 0;
+  for (int i = 0; i < n; i++) {
+    const char* t = classes[toks[i]].name;
+    int complete = 0;
+    if (!strcmp(t, "RSV") || !strcmp(t, "CUT") || !strcmp(t, "HUGE")) return 0;
+    if (!strcmp(t, "BRK")) {
+      if (sp == 0 || st[sp - 1].kind == 0 || (st[sp - 1].kind == 2 && st[sp - 1].rem)) return 0;
+      sp--; complete = 1;
+    } else if (sp > 0 && st[sp - 1].kind >= 3) {
+      if ((st[sp - 1].kind == 3 && !strcmp(t, "B")) || (st[sp - 1].kind == 4 && !strcmp(t, "T"))) continue;
+      return 0;
+    } else if (!strcmp(t, "S") || !strcmp(t, "B") || !strcmp(t, "T") || !strcmp(t, "A0") || !strcmp(t, "M0")) complete = 1;
+    else {
+      if (sp >= 60) return 0;
+      if (!strcmp(t, "A1")) st[sp++] = (struct rframe){0, 1};
+      else if (!strcmp(t, "A2")) st[sp++] = (struct rframe){0, 2};
+      else if (!strcmp(t, "M1")) st[sp++] = (struct rframe){0, 2};
+      else if (!strcmp(t, "G")) st[sp++] = (struct rframe){0, 1};
+      else if (!strcmp(t, "AS")) st[sp++] = (struct rframe){1, 0};
+      else if (!strcmp(t, "MS")) st[sp++] = (struct rframe){2, 0};
+      else if (!strcmp(t, "BS")) st[sp++] = (struct rframe){3, 0};
+      else st[sp++] = (struct rframe){4, 0};
+    }
+    while (complete) {
+      complete = 0;
+      if (sp == 0) return 0; /* a complete top-level item: nothing more is awaited */
+      struct rframe* f = &st[sp - 1];
+      if (f->kind == 0) { if (--f->rem == 0) { sp--; complete = 1; } }
+      else if (f->kind == 2) f->rem ^= 1;
+      else if (f->kind >= 3) return 0;
+    }
+  }
+  return 1;
+}
+static int dfs_toks[16];
+
 static void dfs(unsigned char* buf, size_t len, int depth, int maxdepth, int all) {
   for (int c = 0; c < NCLASS; c++) {
     int nv = all ? classes[c].nv : 1;
@@ -356,6 +401,7 @@ static void dfs(unsigned char* buf, size_t len, int depth, int maxdepth, int all
       struct variant* v = all ? &classes[c].v[k] : &classes[c].v[(vcounter++ * 7 + depth) % classes[c].nv];
       memcpy(buf + len, v->b, v->n);
       size_t nl = len + v->n;
+      dfs_toks[depth] = c;
       /* probe: does the decoder ask for more input here? (uses the real decoder only to prune) */
       one_load(buf, nl);
       if (depth + 1 < maxdepth && !classes[c].last_only) {
@@ -363,8 +409,9 @@ static void dfs(unsigned char* buf, size_t len, int depth, int maxdepth, int all
         cbor_verif_load_hook = NULL;
         cbor_item_t* it = cbor_load(buf, nl, &r);
         cbor_verif_load_hook = opt_lean ? NULL : hook;
+        int want_more = !it && r.error.code == CBOR_ERR_NOTENOUGHDATA && r.error.position == nl;
         if (it) cbor_decref(&it);
-        else if (r.error.code == CBOR_ERR_NOTENOUGHDATA && r.error.position == nl) dfs(buf, nl, depth + 1, maxdepth, all);
+        if (want_more || ref_live(dfs_toks, depth + 1)) dfs(buf, nl, depth + 1, maxdepth, all);
       }
     }
   }
